@@ -1369,6 +1369,32 @@ class Item:
         self.rewrite(be, cend, ";\n          vx_insert_all(&mut vx_out%s, &vx_e%s);/*@tail*/\n          vx_i%s = vx_i%s + 1;\n        }\n        vx_out%s }"
                      % (sfx, sfx, sfx, sfx, sfx), "R3-flat-map-collect-set")
 
+    def r3_filter_collect_stmt(self, fn, k):
+        """statement `let V: T = RECV.into_iter().filter(|P| BODY).collect();` (RECV an owned Vec; BODY a bool without `return` / `?`)  ==>
+        the definition of filter + collect::<Vec<_>>(): every element, in order, kept when BODY holds on a reference to it:
+        let mut V: T = Vec::new(); let mut vx_it = vx_into_iter(RECV); loop { let Some(vx_x) = vx_it.next() else { break; };
+          let P = &vx_x; let vx_b = BODY; if vx_b { V.push(vx_x); } }        (BODY stays in place)"""
+        k0, _, bo, end, _ = self.fn_span(fn)
+        hits = list(re.finditer(r"\.\s*into_iter\s*\(\s*\)\s*\.\s*filter\s*\(", self.m[bo:end]))
+        if len(hits) < k:
+            raise Undecided("LOST-ANCHOR: R3 filter-collect-stmt #%d in fn %s of %s" % (k, fn, self.where()))
+        h = hits[k - 1]
+        par = bo + h.end() - 1
+        p, bs, be, close = self._closure_after(par)
+        if re.search(r"\breturn\b|\?", self.m[bs:be]):
+            raise Undecided("R3 filter-collect-stmt: the closure body leaves early (return / ?)")
+        semi = self.m.find(";", close)
+        if not re.match(r"\s*\.\s*collect\s*\(\s*\)\s*$", self.m[close + 1:semi]):
+            raise Undecided("R3 filter-collect-stmt: `.collect();` expected after the closure at %s:%d" % (self.relpath, self.line_of(close)))
+        s0 = self._stmt_start(bo + h.start())
+        mo = re.match(r"let\s+([A-Za-z_][A-Za-z0-9_]*)\s*(:\s*[^=]+?)?\s*=\s*(.*)$", self.text[s0:bo + h.start()], re.S)
+        if not mo:
+            raise Undecided("R3 filter-collect-stmt: statement shape not recognised at %s:%d" % (self.relpath, self.line_of(s0)))
+        var, ty, recv = mo.group(1), (mo.group(2) or ""), mo.group(3).strip()
+        self.rewrite(s0, bs, "let mut %s%s = Vec::new();\n  let mut vx_it = vx_into_iter(%s);/*@pre*/\n  loop\n  /*@loop*/\n  {\n    let Some(vx_x) = vx_it.next() else { break; };\n    let %s = &vx_x;/*@body*/\n    let vx_b = "
+                     % (var, ty, recv, p), "R3-filter-collect")
+        self.rewrite(be, semi + 1, ";\n    if vx_b { %s.push(vx_x); }/*@tail*/\n  }" % var, "R3-filter-collect")
+
     def r3_position_expr(self, fn, k):
         """tail expression `RECV.iter().position(|P| BODY)`  ==>  index loop returning the first index whose BODY holds:
         { let mut vx_pos = None; let mut vx_i = 0; while vx_i < RECV.len() { let P = &RECV[vx_i]; let vx_b = BODY;
